@@ -56,6 +56,14 @@ def parse_url(url: str) -> ParsedURL:
     if not url:
         raise ValueError("URL cannot be empty")
 
+    # urlparse() silently deletes TAB, CR and LF and strips leading control
+    # characters and spaces, so "gemini://exa\tmple.com/a\nb" would be read as a
+    # different URL from the one that was given. None of them is a URL character.
+    if any(ord(ch) <= 0x20 or ord(ch) == 0x7F for ch in url):
+        raise ValueError(
+            f"Invalid URL (whitespace or control characters are not allowed): {url!r}"
+        )
+
     # Parse the URL
     parsed = urlparse(url)
 
@@ -69,6 +77,14 @@ def parse_url(url: str) -> ParsedURL:
     # Validate hostname
     if not parsed.hostname:
         raise ValueError(f"URL missing hostname: {url}")
+
+    # An IPv6 literal is the whole host: urlparse() takes what is between the
+    # brackets and ignores anything around them ("junk[::1]junk")
+    hostport = parsed.netloc.rpartition("@")[2]
+    if "[" in hostport or "]" in hostport:
+        bracketed, _, after = hostport.partition("]")
+        if not bracketed.startswith("[") or (after and not after.startswith(":")):
+            raise ValueError(f"Malformed IPv6 host: {url}")
 
     # Reject userinfo (per Gemini spec: userinfo portions are forbidden)
     if parsed.username or parsed.password:
